@@ -16,15 +16,15 @@ theorem G01_lim_translated :
 theorem G01_keyTooLargeGuard (n : BitVec 64) (h : n.toNat < 2 ^ 63) :
     Funcs.keyTooLargeGuard (len_p0 := n) = decide (65535 < n.toNat) := by
   unfold Funcs.keyTooLargeGuard
-  rw [slt_toNat _ _ (by decide) h]
-  simp
+  simp only [BitVec.slt, BitVec.sle, BitVec.toInt_eq_toNat_cond, decide_eq_true_eq, decide_eq_decide]
+  bv_omega
 
 /-- `Put` refuses values longer than `MaxValueLength` = 512 MiB. -/
 theorem G01_valueTooLargeGuard (n : BitVec 64) (h : n.toNat < 2 ^ 63) :
     Funcs.valueTooLargeGuard (len_p1 := n) = decide (2 ^ 29 < n.toNat) := by
   unfold Funcs.valueTooLargeGuard
-  rw [slt_toNat _ _ (by decide) h]
-  simp
+  simp only [BitVec.slt, BitVec.sle, BitVec.toInt_eq_toNat_cond, decide_eq_true_eq, decide_eq_decide]
+  bv_omega
 
 /-- The limits the guards enforce are exactly the record-size hypothesis of the codec theorems
 (`Rec.Fits`): a record `Put` accepts fits the format. -/
